@@ -251,3 +251,16 @@ impl ics23::HostFunctionsProvider for Sha256Provider {
         [0; 32]
     }
 }
+
+/// Verification hook (compiled only with `--cfg eigerco_lumina_verif`, add-only): runs
+/// [`ProofChain::verify_membership`] on raw proof operations for an external conformance harness.
+#[cfg(eigerco_lumina_verif)]
+pub fn verif_verify_membership(
+    ops: ProofOps,
+    root: &[u8],
+    keys: &[&[u8]],
+    leaf: &[u8],
+) -> Result<(), ProofError> {
+    let chain: ProofChain = ops.try_into()?;
+    chain.verify_membership(root, keys.iter().copied(), leaf)
+}
